@@ -206,24 +206,34 @@ def run(c):
     g2, n2 = build_graph("G2q" if quick else "G2", results["g2"], ["a1", "a2"], backends, rng, nwalks, wlen)
     if n1 < 10000 or n2 < 10000:
         raise vlib.Infra("too few transitions generated: %d / %d" % (n1, n2))
-    conc = dict(runs=24 if quick else 160, rounds=6 if quick else 8, accounts=["a1", "a2", "a3"], max_nonce=4,
+    conc = dict(runs=32 if quick else 160, rounds=6 if quick else 8, accounts=["a1", "a2", "a3"], max_nonce=4,
                 putters=2, readers=1, ops_per=3, backends=backends)
-    inp = {"graphs": [g1, g2], "backends": backends, "conc": conc}
-    inpath = os.path.join(c.work, "mempool_in.json")
-    json.dump(inp, open(inpath, "w"))
-    outpath = os.path.join(c.work, "mempool_out.json")
     rawtrace = os.path.join(c.work, "mempool_trace_raw.ndjson")
-    env = {"VERIF_IN": inpath, "VERIF_OUT": outpath, "VERIF_TRACE": rawtrace, "VERIF_SEED": c.seed, "VERIF_TIER": c.tier,
-           "ARGLIB_LEVEL": "panic"}
-    rc, output = vlib.go_test("./mempool/", "^TestVerifMempool$", env=env, timeout=3000, race=not quick)
-    race = "WARNING: DATA RACE" in output
-    if not os.path.exists(outpath) and report_fatal(c, output):
-        return
-    r = c.absorb_go(outpath, output)
-    if race:
-        report_races(c, output)
-    if rc != 0 and not r.get("violations") and not race:
-        raise vlib.Infra("harness failed:\n" + output[-3000:])
+
+    def harness(tag, graphs, conc_params, race):
+        inpath = os.path.join(c.work, "mempool_in_%s.json" % tag)
+        json.dump({"graphs": graphs, "backends": backends, "conc": conc_params}, open(inpath, "w"))
+        outpath = os.path.join(c.work, "mempool_out_%s.json" % tag)
+        env = {"VERIF_IN": inpath, "VERIF_OUT": outpath, "VERIF_TRACE": rawtrace, "VERIF_SEED": c.seed, "VERIF_TIER": c.tier,
+               "ARGLIB_LEVEL": "panic"}
+        rc, output = vlib.go_test("./mempool/", "^TestVerifMempool$", env=env, timeout=3000, race=race)
+        if not os.path.exists(outpath) and report_fatal(c, output):
+            return {"violations": [1]}
+        r = c.absorb_go(outpath, output)
+        raced = "WARNING: DATA RACE" in output
+        if raced:
+            report_races(c, output)
+        if rc != 0 and not r.get("violations") and not raced:
+            raise vlib.Infra("harness failed:\n" + output[-3000:])
+        return r
+
+    if quick:
+        r = harness("all", [g1, g2], conc, False)
+    else:
+        # the replay of the graphs without, the concurrent runs with the race detector
+        r = harness("seq", [g1, g2], dict(conc, runs=0), False)
+        if not r.get("violations"):
+            r = harness("conc", [], conc, True)
     c.exhaustive = True
     c.extra["exhaustive_note"] = (
         "exhaustive over the abstract sequential models: G1 (1 account, nonces 1..4) %d transitions, %s %d transitions, all replayed on each back end "
